@@ -25,12 +25,13 @@
    canonical value ([json_valid2] = [json_valid] of Json/JsonMsgValid.v plus: a Value has exactly one kind and
    a finite number).
    _partial, because:
-     [json_core2] the message types of the table are ordinary or one of the structural well-known
-                  types -- the wrappers, Struct, ListValue, Value, Empty (Json/JsonWktValid.v); tables
-                  with Any, Timestamp, Duration or FieldMask are outside the proved part (their mappings
-                  are modelled and executed against the implementation on every run; not yet proved);
-     [b64]        base64 enters through the hypothesis b64_dec (b64_enc bs) = Some bs, which is proved
-                  for the executable codec (C20_json_roundtrip_std_except_F11_partial has no hypothesis);
+     [json_core2] the message types of the table are ordinary or one of: the wrappers, Struct, ListValue,
+                  Value, Empty, Timestamp, Duration (Json/JsonWktValid.v); tables with Any or FieldMask
+                  are outside the proved part (their mappings are modelled and executed against the
+                  implementation on every run; not yet proved);
+     [codec_ok]   the string forms owned by other properties enter as round-trip hypotheses on the codec:
+                  base64 (C22) -- proved for the executable codec, Json/JsonB64P.v -- and the Timestamp /
+                  Duration strings (C23: parse (format s n) = (s, n) on the range Marshal accepts);
      floats are strconv-relative (NF32/NF64 nodes), lexing is by composition with C21.
    C20_json_marshal_fails_only_when_partial: representable content never makes Marshal fail (core);
    that every failure is one of the enumerated classes is checked on the implementation and on the
@@ -44,16 +45,19 @@ Open Scope N_scope.
 
 Theorem C20_json_roundtrip_except_F11_partial :
   forall (cd : jcodec) (o : jopts) (S : schema) (nm : names) (lim fuel tid : nat) (v : value),
-    (forall bs, b64_dec cd (b64_enc cd bs) = Some bs) ->
+    codec_ok cd ->
     json_schema_ok S nm = true -> json_core2 S nm = true ->
     json_valid2 true (o_emit_unpop o) S nm fuel tid v = true ->
     exists j, to_json cd o S nm lim fuel tid v = JOk j /\ of_json cd S nm fuel tid j = JOk (strip_unknown v).
 Proof. exact json_roundtrip_wkt_except_F11_partial. Qed.
 Print Assumptions C20_json_roundtrip_except_F11_partial.
 
-(* the same for the executable codec: the base64 hypothesis is proved (Json/JsonB64P.v) *)
+(* the same for the executable codec: the base64 hypothesis is proved (Json/JsonB64P.v); the
+   Timestamp / Duration string forms stay explicit hypotheses (they are the subject of C23) *)
 Theorem C20_json_roundtrip_std_except_F11_partial :
   forall (o : jopts) (S : schema) (nm : names) (lim fuel tid : nat) (v : value),
+    (forall s n, ts_in_range s n = true -> ts_parse_canon (ts_format s n) = Some (s, n)) ->
+    (forall s n, dur_in_range s n = true -> dur_parse_s (dur_format s n) = Some (s, n)) ->
     json_schema_ok S nm = true -> json_core2 S nm = true ->
     json_valid2 true (o_emit_unpop o) S nm fuel tid v = true ->
     exists j, to_json std_codec o S nm lim fuel tid v = JOk j /\ of_json std_codec S nm fuel tid j = JOk (strip_unknown v).
@@ -64,21 +68,19 @@ Print Assumptions C20_json_roundtrip_std_except_F11_partial.
    Value and NullValue fields, as in textpb2.KnownTypes{} -- with EmitUnpopulated *)
 Theorem C20_json_roundtrip_refuted :
   exists (cd : jcodec) (o : jopts) (S : schema) (nm : names) (lim fuel tid : nat) (v : value) (j : jv),
-    (forall bs, b64_dec cd (b64_enc cd bs) = Some bs) /\
     json_schema_ok S nm = true /\ json_core2 S nm = true /\
     json_valid2 false (o_emit_unpop o) S nm fuel tid v = true /\
     to_json cd o S nm lim fuel tid v = JOk j /\ of_json cd S nm fuel tid j <> JOk (strip_unknown v).
 Proof.
   exists std_codec, (mkJO false false false false true false), ex_schema_w, ex_names_w, 100%nat, 3%nat, 2%nat, ex_kw_empty.
-  eexists. split; [exact JsonB64P.std_codec_b64|].
-  split; [vm_compute; reflexivity|]. split; [vm_compute; reflexivity|]. split; [vm_compute; reflexivity|].
+  eexists. split; [vm_compute; reflexivity|]. split; [vm_compute; reflexivity|]. split; [vm_compute; reflexivity|].
   split; [vm_compute; reflexivity|]. vm_compute. discriminate.
 Qed.
 Print Assumptions C20_json_roundtrip_refuted.
 
 Theorem C20_json_marshal_fails_only_when_partial :
   forall (cd : jcodec) (o : jopts) (S : schema) (nm : names) (lim fuel tid : nat) (v : value),
-    (forall bs, b64_dec cd (b64_enc cd bs) = Some bs) ->
+    codec_ok cd ->
     json_schema_ok S nm = true -> json_core2 S nm = true ->
     json_valid2 true (o_emit_unpop o) S nm fuel tid v = true ->
     exists j, to_json cd o S nm lim fuel tid v = JOk j.
@@ -94,7 +96,8 @@ Print Assumptions C20_rendering_options_irrelevant.
 (* non-vacuity: the example tables pass the checks; messages with scalars of many kinds, NaN /
    infinity / -0 in a list, a map with an int64 boundary value, nested messages with unknown fields,
    an Empty, enums, oneof members, an extension, a Value of every kind, a Struct with nested lists, a
-   ListValue, an Int64Value wrapper and a repeated Value are representable, and their round trips
+   ListValue, an Int64Value wrapper, a repeated Value, a Timestamp and a negative sub-second Duration
+   are representable, and their round trips
    compute for several option records *)
 Example C20_example_schema_ok :
   json_schema_ok ex_schema_w ex_names_w = true /\ json_core2 ex_schema_w ex_names_w = true.
